@@ -184,7 +184,16 @@ func (ex *Ex) lookupIdent(env *Env, name string) (SV, bool) {
 				if env.old != nil {
 					src = env.old
 				}
+				if cv, ok := st.regs[p]; ok && cv.Origin != nil && cv.Origin.Cell > 0 {
+					// a slice parameter whose elements the function writes: the name denotes
+					// its current content (old(p) its content at entry)
+					src = st
+				}
 				if v, ok := src.regs[p]; ok {
+					if v.Origin != nil {
+						// cell-backed slice parameter: content as of the state the name refers to
+						return SV{T: ex.termOf(fr, src, v, p.Type()), Ty: SType{G: p.Type()}}, true
+					}
 					return SV{T: ex.termOf(fr, st, v, p.Type()), Ty: SType{G: p.Type()}}, true
 				}
 			}
@@ -224,6 +233,18 @@ func (ex *Ex) lookupIdent(env *Env, name string) (SV, bool) {
 					}
 				}
 			}
+			if len(allocs) == 0 && env.results != nil {
+				// a postcondition evaluated on a path that returns before the variable is
+				// declared: it denotes an arbitrary value there
+				for _, b := range fn.Blocks {
+					for _, ins := range b.Instrs {
+						if a, ok := ins.(*ssa.Alloc); ok && a.Comment == name {
+							et := a.Type().(*types.Pointer).Elem()
+							return SV{T: Var("undef$"+name, w.SortOf(et)), Ty: SType{G: et}}, true
+						}
+					}
+				}
+			}
 			if len(allocs) == 1 {
 				a := allocs[0]
 				v := ex.val(fr, st, a)
@@ -251,6 +272,18 @@ func (ex *Ex) lookupIdent(env *Env, name string) (SV, bool) {
 						if canEval(st, d.X, 0) {
 							found = d.X
 							foundAddr = d.IsAddr
+						}
+					}
+				}
+			}
+		}
+		if found == nil && env.results != nil {
+			// a postcondition on a path that returns before the local is defined: arbitrary value
+			for _, b := range fn.Blocks {
+				for _, ins := range b.Instrs {
+					if d, ok := ins.(*ssa.DebugRef); ok && d.Object() != nil && d.Object().Name() == name && !d.IsAddr {
+						if vo, isVar := d.Object().(*types.Var); isVar && vo.Pkg() != nil && vo.Parent() != vo.Pkg().Scope() && !vo.IsField() {
+							return SV{T: Var("undef$"+name, w.SortOf(d.X.Type())), Ty: SType{G: d.X.Type()}}, true
 						}
 					}
 				}
@@ -1039,6 +1072,13 @@ func (ex *Ex) trCall(env *Env, e *Expr) (SV, error) {
 		return SV{T: args[0].T, Ty: SType{G: types.Typ[types.UnsafePointer]}}, nil
 	case "fresh":
 		return SV{T: Not(App("alloc0", SBool, args[0].T)), Ty: tBool}, nil
+	case "$call":
+		// $call(k): first argument of the k-th call of the closure at the current callback call site
+		cs, ok := env.st.ghost["$callsym"]
+		if !ok {
+			return SV{}, env.errf(e, "$call outside a callback invariant")
+		}
+		return SV{T: App(cs.T.Op, cs.T.S, args[0].T), Ty: SType{G: universeTypes["error"]}}, nil
 	case "ifaceOf":
 		// ifaceOf(x): box a concrete value as interface
 		v, err := ex.coerceTo(env, args[0], SType{G: universeTypes["any"]})
